@@ -159,7 +159,7 @@ var lastLongText string
 func scanImpl(text string) (toks []tokRec, lexErr string, err error) {
 	perr := rec.Guard(func() {
 		var l *ebnflexer.Lexer
-		l, err = ebnflexer.New("t.ebnf", strings.NewReader(text))
+		l, err = ebnflexer.New("t.ebnf", ref.Source(text))
 		if err != nil {
 			return
 		}
